@@ -783,7 +783,26 @@ INTEGER_encode_uper(const asn_TYPE_descriptor_t *td,
 		ASN__ENCODE_FAILED;
 	}
 
-	for(buf = st->buf, end = st->buf + st->size; buf < end;) {
+	buf = st->buf;
+	end = st->buf + st->size;
+
+	/*
+	 * X.691 #10.8, #10.4: the minimum number of octets.
+	 * Skip the superfluous leading octets, as INTEGER_encode_der() does.
+	 */
+	for(; buf < end - 1; buf++) {
+		switch(*buf) {
+		case 0x00: if((buf[1] & 0x80) == 0)
+				continue;
+			break;
+		case 0xff: if((buf[1] & 0x80))
+				continue;
+			break;
+		}
+		break;
+	}
+
+	while(buf < end) {
         int need_eom = 0;
         ssize_t mayEncode = uper_put_length(po, end - buf, &need_eom);
         if(mayEncode < 0)
